@@ -574,3 +574,67 @@ pub fn gen_malformed(rng: &mut Rng) -> Module {
     }
     m
 }
+
+/// Allocation-heavy well-scoped programs: strings, tables, rows, closures, library calls with
+/// allocating callbacks — the places where a collection can strike in the middle of an operation.
+pub fn gen_alloc_program(rng: &mut Rng, size: usize, with_submodules: bool) -> Module {
+    let mut m = gen_program(rng, &GenOpts { size, with_submodules });
+    let pos = m.functions.iter().position(|(n, _)| n == "main").unwrap();
+    let mut pre: Vec<Card> = vec![];
+    // t0: a table with a few entries; s0: strings
+    pre.push(Card::set_var("t0", c(CardBody::Array((0..rng.range(1, 5)).map(|i| int(10 - i)).collect()))));
+    pre.push(Card::set_var("t00", c(CardBody::CreateTable)));
+    let n = rng.range(1, 6);
+    pre.push(c(CardBody::Repeat(Box::new(Repeat {
+        i: Some("i0".into()),
+        n: int(n),
+        body: composite(vec![
+            Card::set_property(c(CardBody::StringLiteral("payload".into())), read(&"t00".to_string()), read(&"i0".to_string())),
+            bin(CardBody::AppendTable, Card::call_native("mktable", vec![read(&"i0".to_string())]), read(&"t0".to_string())),
+            Card::set_var("row", bin(CardBody::Get, read(&"t0".to_string()), int(0))),
+        ]),
+    }))));
+    match rng.below(4) {
+        0 => pre.push(Card::set_global_var("outa", Card::call_function("std.sorted_by_key", vec![
+            c(CardBody::Closure(Box::new(Function { arguments: vec!["key".into(), "val".into()], cards: vec![Card::return_card(Card::call_native("mktable", vec![read(&"key".to_string())]))] }))),
+            read(&"t00".to_string()),
+        ]))),
+        1 => pre.push(Card::set_global_var("outa", Card::call_function("std.map", vec![
+            c(CardBody::Closure(Box::new(Function { arguments: vec!["k".into(), "v".into(), "i".into()], cards: vec![Card::return_card(c(CardBody::Array(vec![read(&"k".to_string()), read(&"v".to_string())])))] }))),
+            read(&"t0".to_string()),
+        ]))),
+        2 => pre.push(Card::set_global_var("outa", Card::dynamic_call(
+            c(CardBody::Closure(Box::new(Function { arguments: vec!["p".into()], cards: vec![Card::set_var("q", c(CardBody::Array(vec![read(&"p".to_string()), c(CardBody::StringLiteral("zz".into()))]))), Card::return_card(read(&"q".to_string()))] }))),
+            vec![c(CardBody::StringLiteral("arg".into()))],
+        ))),
+        _ => pre.push(Card::set_global_var("outa", Card::call_function("std.min", vec![read(&"t0".to_string())]))),
+    }
+    if rng.chance(1, 2) {
+        // a host function whose table argument only lives in the argument slot, with a callback
+        // that allocates (the wrapper must keep the argument reachable during the call)
+        pre.push(Card::set_global_var("outd", Card::call_native("callback", vec![
+            c(CardBody::Closure(Box::new(Function { arguments: vec!["p".into()], cards: vec![Card::set_var("q", c(CardBody::Array(vec![int(1), int(2)]))), Card::return_card(read(&"p".to_string()))] }))),
+            // (not an `Array` card: its hidden local would overwrite the pending first argument)
+            Card::call_native("mktable", vec![c(CardBody::StringLiteral("only-here".into()))]),
+        ])));
+        pre.push(Card::set_global_var("oute", Card::call_native("__to_array", vec![c(CardBody::Array(vec![c(CardBody::StringLiteral("x".into())), c(CardBody::StringLiteral("y".into()))]))])));
+        let keyfn = c(CardBody::Closure(Box::new(Function { arguments: vec!["key".into(), "val".into()], cards: vec![Card::set_var("junk", c(CardBody::Array(vec![int(7)]))), Card::return_card(read(&"val".to_string()))] })));
+        let name = *rng.pick(&["__sort", "__min", "__max"]);
+        // the table argument is a fresh temporary (an `Array` card would keep it in a hidden local)
+        let fresh = Card::dynamic_call(
+            c(CardBody::Closure(Box::new(Function { arguments: vec![], cards: vec![Card::return_card(c(CardBody::Array(vec![int(3), int(1), int(2)])))] }))),
+            vec![],
+        );
+        pre.push(Card::set_global_var("outf", Card::call_native(name, vec![fresh, keyfn])));
+        pre.push(Card::set_global_var("outg", Card::call_native("__to_array", vec![Card::call_native("mktable", vec![c(CardBody::StringLiteral("fresh".into()))])])));
+    }
+    pre.push(Card::set_global_var("outb", read(&"t0".to_string())));
+    pre.push(Card::set_global_var("outc", read(&"t00".to_string())));
+    let f = &mut m.functions[pos].1;
+    // after the five global initialisers
+    let at = f.cards.len().min(5);
+    for (k, c) in pre.into_iter().enumerate() {
+        f.cards.insert(at + k, c);
+    }
+    m
+}
